@@ -403,6 +403,9 @@ func recoverSign(ctx context.Context, signc chan *vss.Signature, suite suites.Su
 		// before it registers for the peers' shares. Peers must have signed the
 		// same content for the same request type.
 		var own *vss.Signature
+		// Deferred first, so it runs last, after out and errc are closed: queryLoop
+		// hands the peers' shares to this stage until the query context ends.
+		defer drainSigns(ctx, signc)
 		defer close(out)
 		defer close(errc)
 
@@ -473,6 +476,25 @@ func recoverSign(ctx context.Context, signc chan *vss.Signature, suite suites.Su
 		}
 	}()
 	return out, errc
+}
+
+// drainSigns takes and drops the shares that still arrive for a query whose recovery
+// stage is done. The stage returns after its single report, but the query context is
+// only cancelled when handleQuery returns, i.e. after reportQueryResult's chain call:
+// in between queryLoop found the request registered and its context live, sent the next
+// share to a stage that no longer received and waited there for the whole transaction,
+// and with it every other request of the node.
+func drainSigns(ctx context.Context, signc chan *vss.Signature) {
+	for {
+		select {
+		case _, ok := <-signc:
+			if !ok {
+				return
+			}
+		case <-ctx.Done():
+			return
+		}
+	}
 }
 
 func registerGroup(ctx context.Context, chain onchain.ProxyAdapter, IdWithPubKeys chan [5]*big.Int) (errc chan error) {
